@@ -172,7 +172,11 @@ def judge(case, r):
             out.append(("failure-value", "failure value %s, documented %s" % (r["ret"], e["ret"])))
     if failed and e["ret"] is not None or failed and e.get("may_fail"):
         ee = e.get("errno") or frozenset(["EINVAL", "EDOM"])
-        if r["errno"] not in ee:
+        if e.get("any_system_errno"):
+            if r["errno"] in ("0", "EINVAL", "EDOM", "EBADMSG", "ENOPROTOOPT", "ENOSYS") or "0" not in r["cats"]:
+                out.append(("errno", "errno %s with categories %s, expected the errno of the failing system call, "
+                            "category VNAERR_SYSTEM" % (r["errno"], r["cats"])))
+        elif r["errno"] not in ee:
             out.append(("errno", "errno %s, documented %s" % (r["errno"], "/".join(sorted(ee)))))
         ecb = e.get("cb") or frozenset([1])
         if cb not in ecb:
@@ -378,10 +382,17 @@ FLOAD_TEXTS = [
 
 def file_cases(s, rng):
     out = []
+    savable = s["type"] != 0 and s["freqs"] >= 1
     for cls, name, text, errnos in FLOAD_TEXTS:
         out.append(Case("data", s, "fload", cls, [], fail("m1", errnos, unchanged=None), name + "\n" + text))
     out.append(Case("data", s, "load", "no-such-file", [], fail("m1", ("ENOENT",), unchanged=None), "/nonexistent-dir/x.npd"))
-    savable = s["type"] != 0 and s["freqs"] >= 1
+    # failures reported from inside the work, followed by the function's own clean-up (fclose / free):
+    # errno on return must still be the reported one
+    for cls, name, text, errnos in FLOAD_TEXTS[:4] + FLOAD_TEXTS[6:8]:
+        out.append(Case("data", s, "load_text", cls + " (by name)", [], fail("m1", errnos, unchanged=None), name + "\n" + text))
+    if savable:
+        out.append(Case("data", s, "save", "device-full", [], dict(fail("m1", cb=(1,), unchanged=None), any_system_errno=True),
+                        "/dev/full"))
     out.append(Case("data", s, "save", "no-such-directory", [],
                     fail("m1", ("ENOENT",) if savable else ("ENOENT", "EINVAL"), unchanged=None), "/nonexistent-dir/x.npd"))
     if s["type"] == 0:
@@ -526,6 +537,9 @@ def cal_cases_for_state(s, rng):
     out.append(Case("cal", s, "load", "no-magic", [0], fail("null", ("EBADMSG",)), "calibrations: []\n"))
     out.append(Case("cal", s, "load", "wrong-structure", [0], fail("null", ("EBADMSG",)), "#VNACal 1.0\ncalibrations: 5\n"))
     out.append(Case("cal", s, "save", "no-such-directory", [], fail("m1", ("ENOENT",)), "/nonexistent-dir/x.vnacal"))
+    if s["ncal"] > 0 and s["holes"] != (1 << s["ncal"]) - 1:
+        out.append(Case("cal", s, "save", "device-full", [], dict(fail("m1", cb=(1,), unchanged=None), any_system_errno=True),
+                        "/dev/full"))
     # apply (error_fn)
     for ci in ci_classes(s):
         if not cal_live(s, ci):
@@ -1001,3 +1015,226 @@ def model_tie(ctx, runner, drv, broken):
                        "note": "the model (coq/Err/ContractModel.v) follows the documented contract by theorem "
                                "data_refusal_iff_invalid / query_fail_classified; a disagreement means either the prologue "
                                "changed or the model is stale"})
+
+
+# ----------------------------------------------------------------------------- model tie, part 2
+# vnacal_new family, parameter family, vnadata_convert (models of coq/Err/NewModel.v)
+def q3(v):
+    return "nan" if v == -999 else str(v)
+
+
+def gen_add_tuples(ctx, shapes, per_shape):
+    """Argument tuples for _vnacal_new_add_common through vnacal_new_add_mapped_matrix(_m): near-valid
+    tuples with one field perturbed, plus uniformly random ones."""
+    rng = ctx.rng
+    out = []
+    handles_ok = [0, 1, 2, H_SCALAR, H_UNKNOWN]
+    handles_bad = [99, -1, H_DELETED, 7]
+    for (t, r, c) in shapes:
+        P = max(r, c)
+        for k in range(per_shape):
+            a = {"b_null": 0, "ar": 0, "ac": 0, "br": r, "bc": c, "sr": P, "sc": P, "map": list(range(1, P + 1)), "asing": 0}
+            if rng.random() < 0.5:
+                n = rng.randint(1, P)
+                a["sr"] = a["sc"] = n
+                perm = list(range(1, P + 1))
+                rng.shuffle(perm)
+                a["map"] = perm[:n]
+                if rng.random() < 0.5:
+                    a["br"], a["bc"] = (n, n)
+                    if t == T16:
+                        a["bc"] = c
+                    if t == U16:
+                        a["br"] = r
+            if rng.random() < 0.25:
+                a["map"] = None
+            if rng.random() < 0.3:
+                a["ar"] = 1 if t in (UE14, E12) else a["bc"]
+                a["ac"] = a["bc"]
+                a["asing"] = 1 if rng.random() < 0.3 else 0
+            # perturbations
+            for _ in range(rng.choice([0, 0, 1, 1, 2])):
+                f = rng.choice(["br", "bc", "sr", "sc", "map", "ar", "ac", "b_null", "rect"])
+                if f in ("br", "bc", "sr", "sc"):
+                    a[f] = rng.randint(0, 4)
+                elif f in ("ar", "ac"):
+                    a[f] = rng.randint(0, 3)
+                elif f == "b_null":
+                    a[f] = 1 if rng.random() < 0.3 else 0
+                elif f == "rect":
+                    a["sr"], a["sc"] = rng.randint(1, P), rng.randint(1, P)
+                elif a["map"] is not None and a["map"]:
+                    a["map"][rng.randrange(len(a["map"]))] = rng.randint(0, P + 1)
+            if rng.random() < 0.1:
+                a = {"b_null": 0, "ar": rng.randint(0, 2), "ac": rng.randint(0, 2), "br": rng.randint(0, 4), "bc": rng.randint(0, 4),
+                     "sr": rng.randint(0, 4), "sc": rng.randint(0, 4), "map": [rng.randint(0, P + 1) for _ in range(4)],
+                     "asing": 0}
+            ncells = a["sr"] * a["sc"] if 0 < a["sr"] <= 4 and 0 < a["sc"] <= 4 else 0
+            cells = [rng.choice(handles_ok) for _ in range(ncells)]
+            if cells and rng.random() < 0.2:
+                cells[rng.randrange(len(cells))] = rng.choice(handles_bad)
+            sports = max(a["sr"], a["sc"])
+            m = a["map"]
+            if m is not None:
+                m = (m + [rng.randint(0, P + 1) for _ in range(4)])[:4]
+            a["map4"] = m
+            a["cells"] = cells
+            a["mapm"] = None if m is None else m[:max(0, min(4, sports))]
+            out.append(((t, r, c), a))
+    return out
+
+
+def model_tie2(ctx, runner, drv, broken):
+    rng = ctx.rng
+    quick = ctx.tier == "quick"
+    pairs = []          # (Case, model line, kind)
+    s22 = {"type": T8, "rows": 2, "cols": 2, "nstd": 0, "count": 5, "seed": 21}
+    # 1. vnacal_new_alloc
+    for t in range(-1, 10):
+        for r in range(0, 4):
+            for c in range(0, 4):
+                for f in ((-1, 2) if quick else (-1, 0, 2)):
+                    if quick and rng.random() > 0.5:
+                        continue
+                    pairs.append((Case("new", s22, "new_alloc", "tie", [t, r, c, f], OK), "na %d %d %d %d" % (t, r, c, f), "alloc"))
+    # 2. frequency vector
+    vals = (-1, 0, 1, 2, 3, -999)
+    for a in vals:
+        for b in vals:
+            for c in vals:
+                if quick and rng.random() > 0.4:
+                    continue
+                pairs.append((Case("new", s22, "set_fv3", "tie", [a, b, c, 0], OK), "nf 3 %s,%s,%s" % (q3(a), q3(b), q3(c)), "v"))
+    pairs.append((Case("new", s22, "set_fv3", "tie", [1, 2, 3, 1], OK), "nf 3 null", "v"))
+    # 3. scalar setters
+    for func, op, values in (("set_pvalue_limit", "pv", (-1000, -1, 0, 1, 500, 1000, 1001, 1500, -999)),
+                             ("set_et_tolerance", "et", (-1000, -1, 0, 1, 2000, -999)),
+                             ("set_p_tolerance", "pt", (-1000, -1, 0, 1, 2000, -999))):
+        for v in values:
+            pairs.append((Case("new", s22, func, "tie", [v], OK), "nx %s %s" % (op, "nan" if v == -999 else "%d/1000" % v), "v"))
+    for v in (-5, -1, 0, 1, 2, 50):
+        pairs.append((Case("new", s22, "set_iteration_limit", "tie", [v], OK), "nx it %d" % v, "v"))
+    # 4. set_m_error (the modes of the harness spelled out for the model; calibration range 1..3 GHz)
+    merr = {0: ("2", "1/2,4", "1/10000,1/10000", "1/1000,1/1000"), 1: ("0", "1/2,4", "1/10000,1/10000", "1/1000,1/1000"),
+            2: ("2", "1/2,4", "null", "1/1000,1/1000"), 3: ("2", "1/2,4", "-1,1/10000", "1/1000,1/1000"),
+            4: ("2", "1/2,2", "1/10000,1/10000", "1/1000,1/1000"), 5: ("2", "4,1/2", "1/10000,1/10000", "1/1000,1/1000")}
+    for t in (T8, U8, TE10, UE14, T16):
+        st = {"type": t, "rows": 2, "cols": 2, "nstd": 0, "count": 5, "seed": 22}
+        for mode, (n, fv, nf, tr) in sorted(merr.items()):
+            pairs.append((Case("new", st, "set_m_error", "tie", [mode], OK), "nm %d 3 1 %s %s %s %s" % (t, n, fv, nf, tr), "v"))
+    # 5. _vnacal_new_add_common
+    shapes = []
+    for t in (T8, U8, TE10, UE10, T16, U16, UE14, E12):
+        for r in (1, 2, 3):
+            for c in (1, 2, 3):
+                if (t in (T8, TE10, T16) and r <= c) or (t not in (T8, TE10, T16) and r >= c):
+                    shapes.append((t, r, c))
+    for (t, r, c), a in gen_add_tuples(ctx, shapes, 60 if quick else 500):
+        st = {"type": t, "rows": r, "cols": c, "nstd": 0, "count": 5, "seed": 23}
+        v = [a["b_null"], a["ar"], a["ac"], a["br"], a["bc"], a["sr"], a["sc"], -1 if a["map4"] is None else 4]
+        v += (a["map4"] or [0, 0, 0, 0]) + [len(a["cells"])] + (a["cells"] + [0] * 16)[:16] + [a["asing"]]
+        text = ",".join(str(x) for x in v)
+        stored = 7 if t == E12 else t
+        mline = "nd %d %d %d %d %d %d %d %d %d %d %s %s %d" % (
+            stored, r, c, a["b_null"], a["ar"], a["ac"], a["br"], a["bc"], a["sr"], a["sc"],
+            "null" if a["mapm"] is None else (",".join(str(x) for x in a["mapm"]) or "empty"),
+            ",".join(str(x) for x in a["cells"]) or "empty", a["asing"])
+        pairs.append((Case("new", st, "add_generic", "tie", [], OK, text), mline, "add"))
+    # 6. solve (the kernel verdict is the oracle: taken from the library's answer)
+    for sh in NEW_SHAPES:
+        for nstd in (0, 5 if max(sh[1], sh[2]) > 1 else 4):
+            st = {"type": sh[0], "rows": sh[1], "cols": sh[2], "nstd": nstd, "count": 5, "seed": 24}
+            pairs.append((Case("new", st, "solve", "tie", [0], OK), "ns 1 ?", "solve"))
+            pairs.append((Case("new", st, "solve", "tie", [1], OK), "ns 0 ?", "solve"))
+    # 7. parameter family (table built by the harness: 0..2 predefined, 3 scalar, 4 vector 1..3 GHz, 5 unknown, 6 deleted)
+    sc = {"ncal": 0, "holes": 0, "seed": 25}
+    mv = {0: "3 1,2,3 0", 1: "0 1,2,3 0", 7: "-1 1,2,3 0", 2: "3 null 0", 3: "3 1,2,3 1", 4: "3 -1,2,3 0", 5: "3 1,3,2 0", 6: "3 1,2,2 0"}
+    for mode, margs in sorted(mv.items()):
+        pairs.append((Case("cal", sc, "make_vector", "tie", [mode], OK), "pp 0 mv " + margs, "p"))
+    mc = {0: "3 1,2,3 1/10,1/10,1/5", 1: "0 1,2,3 1/10,1/10,1/5", 2: "3 1,2,3 null", 3: "3 1,3,2 1/10,1/10,1/5", 4: "3 -1,2,3 1/10,1/10,1/5"}
+    for h in (-2, -1, 0, 1, 2, 3, 4, 5, 6, 7, 8, 99):
+        pairs.append((Case("cal", sc, "make_unknown", "tie", [h], OK), "pp 0 mu %d" % h, "p"))
+        pairs.append((Case("cal", sc, "delete_parameter", "tie", [h], OK), "pp 0 dl %d" % h, "p"))
+        for mode, margs in sorted(mc.items()):
+            pairs.append((Case("cal", sc, "make_correlated", "tie", [h, mode], OK), "pp 0 mc %d %s" % (h, margs), "p"))
+        for f in (5, 10, 20, 30, 35, 100):
+            pairs.append((Case("cal", sc, "get_parameter_value", "tie", [h, f], OK), "pp 0 gv %d %d/10" % (h, f), "p"))
+    # 8. vnadata_convert
+    for t in range(0, 11):
+        for r in range(0, 4):
+            for c in range(0, 4):
+                if not vtype_ok(t, r, c) or (r * c == 0 and r + c > 0):
+                    continue
+                sd = {"type": t, "rows": r, "cols": c, "freqs": 1 if r * c > 0 else 0, "fz0": 0, "seed": 26}
+                for nt in range(-1, 12):
+                    for mode in (0, 1, 2):
+                        if quick and rng.random() > 0.5:
+                            continue
+                        if r * c == 0 and nt == 10 and mode == 1 and t in (1, 4, 5):
+                            continue    # empty S/Z/Y matrix to Zin in another object: the 1 x 0 destination has one
+                                        # port, the source none, and vnadata_convert copies one z0 from a NULL vector
+                                        # (memory safety: C03; reported to the lead)
+                        pairs.append((Case("data", sd, "convert", "tie", [nt, mode], OK),
+                                      "cv 0 %d %d %d %d %d" % (t, r, c, 1 if mode == 2 else 0, nt), "conv"))
+    pairs.append((Case("data", {"type": 1, "rows": 2, "cols": 2, "freqs": 1, "fz0": 0, "seed": 27}, "convert@null", "tie", [4, 0], OK),
+                  "cv 1 1 2 2 0 4", "conv"))
+    cases = [p[0] for p in pairs]
+    results = runner.run(cases)
+    # the solve oracle
+    mlines = []
+    for c, ml, kind in pairs:
+        if kind == "solve":
+            r = results.get(c.id, {})
+            ml = ml.replace("?", "MATH" if r.get("ret") == "m1" and r.get("errno") == "EDOM" else "-")
+        mlines.append(ml)
+    rc, mout, merr_ = vplib.sh([drv], input="\n".join(mlines) + "\n", timeout=600)
+    mres = mout.strip().split("\n")
+    if rc != 0 or len(mres) != len(cases):
+        broken["tie:model2"] = "extracted driver failed (%d lines for %d cases): %s" % (len(mres), len(cases), merr_[-300:])
+        ctx.obligation("tie:new-param-convert", False, broken["tie:model2"])
+        return
+    diffs = []
+    counts = {}
+    for (c, _, kind), ml in zip(pairs, mres):
+        r = results.get(c.id)
+        m = ml.split()
+        counts[kind] = counts.get(kind, 0) + 1
+        ctx.count(("tie2", c.func, tuple(c.args), c.text, tuple(sorted(c.state.items()))) if m[0] != "pass" else None)
+        if r is None or "crash" in r:
+            if r is not None and str(r["crash"].get("error", "")).startswith("not run"):
+                continue
+            diffs.append((c, ml, "library crashed: %s" % (r or {}).get("crash")))
+            continue
+        failed = has_failed(r)
+        prob = None
+        if m[0] == "pass":
+            if failed:
+                prob = "model passes the arguments, library refuses (%s %s, %s)" % (r["ret"], r["errno"], r.get("msg"))
+            elif r["cb"] != "0":
+                prob = "accepted call invoked the error function %s time(s)" % r["cb"]
+        else:
+            if not failed:
+                prob = "model refuses (%s %s %s), library accepts" % (m[0], m[1], m[2])
+            elif (r["ret"], r["errno"], r["cb"]) != (m[0], m[1], m[2]):
+                prob = "model %s %s cb=%s, library %s %s cb=%s" % (m[0], m[1], m[2], r["ret"], r["errno"], r["cb"])
+            elif r["d0"] != r["d1"] or r.get("x0") != r.get("x1"):
+                prob = "model: refusal precedes every write; library changed the object (%s -> %s)" % (
+                    r.get("w0", r["d0"]), r.get("w1", r["d1"]))
+            elif r["ecb"] != r["errno"] and r["cb"] != "0":
+                prob = "errno inside the error function %s, on return %s" % (r["ecb"], r["errno"])
+        if prob:
+            diffs.append((c, ml, prob))
+    ctx.traces_validated += len(cases)
+    ctx.extra["tie2_tuples"] = counts
+    ctx.obligation("tie:new-param-convert", not diffs, "; ".join("%s%s %s: %s" % (d[0].func, d[0].args, d[0].text[:40], d[2]) for d in diffs[:4]))
+    seen = set()
+    for c, ml, prob in diffs:
+        key = (c.func.replace("@null", ""), prob.split("(")[0][:40])
+        if key in seen:
+            continue
+        seen.add(key)
+        ctx.violation({"kind": "disagreement", "function": c.func.replace("@null", ""), "args": " ".join(str(x) for x in c.args)},
+                      "model and library disagree on %s%s %s in state %s: %s" % (c.func, c.args, c.text, c.state, prob),
+                      {"row": c.describe(), "model_line": ml, "problem": prob,
+                       "note": "model: coq/Err/NewModel.v (prologues as coded); theorems new_fail_classified, "
+                               "new_refused_unchanged, param_fail_classified, convert_refusal_iff_invalid"})
